@@ -1,0 +1,10 @@
+//go:build verif
+
+package acrablock
+
+// Verification hooks (add-only, compiled with -tags verif only).
+
+// VerifGetKeyEncryptionKeyID calls AcraBlock.getKeyEncryptionKeyID.
+func VerifGetKeyEncryptionKeyID(b []byte) ([]byte, error) {
+	return AcraBlock(b).getKeyEncryptionKeyID()
+}
